@@ -8,7 +8,10 @@
      lib    library-supplied length fields the projection keeps aside
    Rules: wb = Encode(v) (TSEncode.tla) and wn = 188; got = v; rb = wb.
    `ref` events carry reference bytes the writer cannot produce (reserved bits 0,
-   arbitrary stuffing bytes): only got = v is required there. *)
+   arbitrary stuffing bytes): only got = v is required there.
+   Histories (part "stream"): the values are written by one Muxer between WriteTables / WriteData calls (wb = the bytes that
+   WritePacket call added to the output) and read back by one Demuxer with a PacketSkipper; `vec` for the packets kept,
+   `wvec` for the packets dropped, `sdone` with the number of packets returned. *)
 EXTENDS MonBase, TSEncode
 VARIABLES l, st
 vars == <<l, st>>
@@ -23,6 +26,15 @@ OnVec(s, e) ==
       s2 == RepIf(e.werr = "nil" /\ e.wb = want /\ e.got # e.v, s1, V("parse-differs-from-value", s, e, [perr |-> e.perr]))
   IN RepIf(e.werr = "nil" /\ e.wb = want /\ e.perr = "nil" /\ (e.rerr # "nil" \/ e.rb # e.wb), s2, V("re-emission-not-identical", s, e, [rerr |-> e.rerr, rn |-> Len(e.rb)]))
 
+\* a packet written in the middle of a Muxer history and dropped by the reading side's skipper: the write direction only
+OnW(s, e) ==
+  LET want == Encode(e.v) IN
+  RepIf(e.werr # "nil" \/ e.wn # 188 \/ e.wb # want, s,
+        V("write-differs-from-reference-encoding", s, e, [werr |-> e.werr, wn |-> e.wn,
+            firstdiff |-> IF Len(e.wb) # 188 THEN Len(e.wb) ELSE IF e.wb = want THEN 0 ELSE CHOOSE k \in 1..188 : e.wb[k] # want[k] /\ \A j \in 1..(k-1) : e.wb[j] = want[j]]))
+\* end of a history: the reading side returned exactly the packets its skipper kept
+OnSDone(s, e) == RepIf(e.ok /\ e.want # e.got, s, V("packets-returned-differ-from-kept", s, e, [want |-> e.want, got |-> e.got]))
+
 OnRef(s, e) == RepIf(e.got # e.v, s, V("parse-differs-from-value", s, e, [perr |-> e.perr]))
 
 Step(s, e, i) ==
@@ -30,6 +42,8 @@ Step(s, e, i) ==
   CASE e.ev = "reset" -> [tr |-> e.t, at |-> i]
     [] e.ev = "vec" -> OnVec(s0, e)
     [] e.ev = "ref" -> OnRef(s0, e)
+    [] e.ev = "wvec" -> OnW(s0, e)
+    [] e.ev = "sdone" -> OnSDone(s0, e)
     [] OTHER -> s
 
 Next == /\ l <= Len(Trace)
